@@ -43,10 +43,14 @@ rf = os.path.join(V, "seeded", "RESULTS_ALL.json")
 if os.path.exists(rf):
     res = json.load(open(rf))
 out.append("\n| change | property | what it needs to manifest | caught by check | how |\n|---|---|---|---|---|\n")
+harmless = []
 for d in sorted(glob.glob(os.path.join(V, "seeded", "*", "meta.json"))):
     name = os.path.basename(os.path.dirname(d))
     m = json.load(open(d))
     r = res.get(name, {})
+    if m.get("harmless"):
+        harmless.append((name, m, r))
+        continue
     if m.get("retired"):
         caught, how, detail = "retired", "", m["retired"][:200]
     elif isinstance(r, dict) and r:
@@ -56,6 +60,25 @@ for d in sorted(glob.glob(os.path.join(V, "seeded", "*", "meta.json"))):
     else:
         caught, how, detail = "?", "", ""
     out.append("| %s | %s | %s | %s | %s %s |\n" % (name, m.get("property"), " ".join(str(m.get("needs", "")).split())[:260].replace("|", "\\|"), caught, how, detail))
+if harmless:
+    out.append("\n### 9b. Independent behaviour-preserving changes (false-alarm test)\n\n")
+    hn = os.path.join(V, "tools", "design_harmless.md")
+    if os.path.exists(hn):
+        out.append(open(hn).read() + "\n")
+    out.append("| change | property | edit | check result |\n|---|---|---|---|\n")
+    for name, m, r in harmless:
+        if isinstance(r, dict) and r:
+            if r.get("exit") == 0:
+                v = "silent (exit 0)"
+            elif r.get("with_input"):
+                v = "FALSE ALARM with input: " + (r.get("detail") or [""])[0][:160].replace("|", "\\|")
+            else:
+                v = "alarm without input (`no-failing-input-found`: tie broke, as the brief allows): " + (r.get("detail") or [""])[0][:140].replace("|", "\\|")
+        else:
+            v = "?"
+        if m.get("note"):
+            v += " — " + m["note"]
+        out.append("| %s | %s | %s | %s |\n" % (name, m.get("property"), " ".join(str(m.get("summary", "")).split())[:260].replace("|", "\\|"), v))
 lim = os.path.join(V, "tools", "design_limits.md")
 if os.path.exists(lim):
     out.append("\n" + open(lim).read())
